@@ -273,7 +273,8 @@ impl CertSpec {
 		CertSpec {
 			not_before: TimeSpec { unix: 157766400, nanos: 0, offset: 0 },
 			not_after: TimeSpec { unix: 67090204800, nanos: 0, offset: 0 },
-			serial: None,
+			// the crypto-less build of rcgen can derive neither a serial nor a hashed key identifier
+			serial: if cfg!(feature = "crypto") { None } else { Some(Hex(vec![0x0a])) },
 			sans: vec![],
 			dn: DnSpec(vec![(
 				DnTypeSpec::CommonName,
@@ -286,7 +287,7 @@ impl CertSpec {
 			crl_dps: vec![],
 			custom_exts: vec![],
 			use_aki: false,
-			kid: KidSpec::Sha256,
+			kid: if cfg!(feature = "crypto") { KidSpec::Sha256 } else { KidSpec::Pre(Hex(vec![1, 2, 3, 4])) },
 		}
 	}
 	/// Number of extension-bearing fields that are set (used for the sparsity classes).
